@@ -5,6 +5,7 @@ Property theorems only; helper lemmas are in Proofs/{Varint,Rle,Delta}.lean.
 The model is Model/Codec.lean (mirrors src/network/compression.rs after the `fix:` commit that
 replaced `bitfield_rle::decode` by the checked `rle_decode`, plus the `bitfield-rle` encoder).
 -/
+import GgrsModel.Model.Inventory
 import GgrsModel.Proofs.Delta
 
 namespace Ggrs.Codec
